@@ -34,6 +34,12 @@ type ptrOp struct{ text string }
 func (o *ptrOp) String() string  { return o.text }
 func (o *ptrOp) Context() string { return "ptr" }
 
+// sliceOp is a user-defined Operator of an uncomparable type (comparing two of them with == panics).
+type sliceOp []string
+
+func (o sliceOp) String() string  { return o[0] }
+func (o sliceOp) Context() string { return o[1] }
+
 // strer is a plain Stringer value.
 type strer struct{ s string }
 
